@@ -667,3 +667,138 @@ def flow_digest(ns):
     flow = getattr(fp, "flow", None)
     model = getattr(flow, "model", None)
     return state_digest(model) if model is not None else 0
+
+
+# ---------------------------------------------------------------------------
+# C13: termination signals before every source line of an iteration
+
+
+class LineSignals:
+    """Traces the source lines of nessai executed during ONE iteration of the
+    standard sampler's loop (from the loop's check_state() call to the return
+    of periodically_log_state()).
+
+    mode "record": emits the list of lines.
+    mode "inject": before line number `line` (index into that list) calls the
+    installed handler of `signum` exactly as the interpreter would deliver it.
+    """
+
+    REGIONS = ("consume_sample", "finalise", "update_state", "check_state", "periodically_log_state",
+               "nested_sampling_loop")
+
+    def __init__(self, em: Emitter, obs, at_iteration, line=None, signum=15, finalise=False):
+        self.em = em
+        self.obs = obs
+        self.at_iteration = int(at_iteration)
+        self.line = line
+        self.signum = signum
+        self.finalise = finalise
+        self.active = False
+        self.depth_consume = 0
+        self.idx = -1
+        self.lines = []
+        self.done = False
+        import nessai
+
+        self.root = os.path.dirname(nessai.__file__) + os.sep
+
+    def region(self, frame):
+        names = []
+        f = frame
+        while f is not None:
+            if f.f_code.co_filename.startswith(self.root):
+                names.append(f.f_code.co_name)
+            f = f.f_back
+        for n in reversed(names):      # outermost first
+            if n in self.REGIONS and n != "nested_sampling_loop":
+                return n
+        return "nested_sampling_loop" if "nested_sampling_loop" in names else "other"
+
+    def tracer(self, frame, event, arg):
+        if not self.active:
+            return None
+        fn = frame.f_code.co_filename
+        if not fn.startswith(self.root):
+            return None
+        if event == "call":
+            return self.tracer
+        if event == "line":
+            self.idx += 1
+            rel = fn[len(self.root):]
+            if self.line is None:
+                self.lines.append([rel, frame.f_lineno, frame.f_code.co_name, self.region(frame)])
+            elif self.idx == self.line:
+                import signal as _signal
+
+                self.active = False
+                sys_settrace(None)
+                ns = self.obs.ns
+                self.em.emit("signal", idx=self.idx, file=rel, lineno=frame.f_lineno,
+                             func=frame.f_code.co_name, region=self.region(frame), signum=self.signum,
+                             live=self.obs.live_state(ns), **self.obs.tails(ns), **self.obs.counts(ns))
+                handler = _signal.getsignal(self.signum)
+                handler(self.signum, frame)      # FlowSampler.safe_exit -> sys.exit(exit_code)
+        return self.tracer
+
+    def start(self, frame):
+        self.active = True
+        self.idx = -1
+        frame.f_trace = self.tracer
+        sys_settrace(self.tracer)
+
+    def stop(self):
+        if self.active:
+            self.active = False
+            sys_settrace(None)
+            self.done = True
+            if self.line is None:
+                self.em.emit("lines", at_iteration=self.at_iteration, lines=self.lines)
+
+    def install(self):
+        from nessai.samplers.nestedsampler import NestedSampler
+        from nessai.samplers.base import BaseNestedSampler
+
+        ls = self
+        import sys as _sys
+
+        wrapped_check = NestedSampler.check_state
+
+        def check_state(ns, *a, **k):
+            caller = _sys._getframe(1)
+            top = caller.f_code.co_name == "nested_sampling_loop"
+            if top and not ls.done and not ls.active and not ls.finalise and int(ns.iteration) == ls.at_iteration:
+                ls.obs.ns = ns
+                ls.start(caller)
+            return wrapped_check(ns, *a, **k)
+
+        NestedSampler.check_state = check_state
+
+        wrapped_log = BaseNestedSampler.periodically_log_state
+
+        def periodically_log_state(ns, *a, **k):
+            r = wrapped_log(ns, *a, **k)
+            if ls.active and not ls.finalise:
+                ls.stop()
+            return r
+
+        BaseNestedSampler.periodically_log_state = periodically_log_state
+
+        if ls.finalise:
+            wrapped_fin = NestedSampler.finalise
+
+            def finalise(ns, *a, **k):
+                if not ls.done and not ls.active:
+                    ls.obs.ns = ns
+                    ls.start(_sys._getframe(1))
+                try:
+                    return wrapped_fin(ns, *a, **k)
+                finally:
+                    ls.stop()
+
+            NestedSampler.finalise = finalise
+
+
+def sys_settrace(f):
+    import sys as _sys
+
+    _sys.settrace(f)
